@@ -172,6 +172,10 @@ func getFields(n map[string]ast.Node) (map[string]fields.Field, error) {
 						parent.Children = append(parent.Children, f)
 					}
 				}
+				// what is declared inside the field's own type (the fields of
+				// an anonymous struct, the parameters of a func) are not
+				// fields of this struct.
+				return false
 			}
 			return true
 		})
